@@ -1,12 +1,14 @@
 import Goat.Model.Custom
 import GoatProofs.Lemmas.C07NoPanic
 import GoatProofs.Lemmas.C07NumericDate
+import GoatProofs.Lemmas.C10Paths
 /-
 C07 over the custom-claims codec model of C10 (Goat/Model/Custom.lean, read-only here).
 
 `DecodeCustom` takes ATTACKER-chosen claims (any JSON value) and a CALLER-chosen destination type.
 The theorem quantifies over every JSON value, every type description, every current value and
-every recursion depth.  Two facts that do not depend on the claims are hypotheses:
+every recursion depth.  Two facts that do not depend on the claims are hypotheses of the `_partial` / `_of_walk` forms and
+are DISCHARGED in `no_panic_custom_decode` (closed):
 
   * `hnd`   Model.NumericDate.decode never answers `panic` (math/big NaN; see C07Decoder);
   * `hwalk` the index paths computed by `typeFields` for the destination type are valid for
@@ -137,6 +139,18 @@ theorem no_panic_custom_decode_of_walk
     (hwalk : ∀ (t : Ty) (f : FlatField) (sv : Val), f ∈ typeFields t → (walkGet true f.index t true sv).NoPanic)
     (fuel : Nat) (t : Ty) (cur : Val) (w : Wire) : NoPanic (decodeInto fuel t cur w) :=
   no_panic_custom_decode_partial ND.decode_noPanic hwalk fuel t cur w
+
+/-- **no_panic_custom_decode** (full statement, closed): `Claims.DecodeCustom` of every JSON value
+    into every destination type description, every current value, every recursion depth, every
+    oracle.  `hwalk` is C10's `typeFields_walk_no_panic` (GoatProofs/Lemmas/C10Paths.lean: the index
+    paths `typeFields` computes are valid for `reflect.Value.Field`), `hnd` is C07.ND.decode_noPanic. -/
+theorem no_panic_custom_decode (fuel : Nat) (t : Ty) (cur : Val) (w : Wire) :
+    NoPanic (decodeInto fuel t cur w) :=
+  no_panic_custom_decode_of_walk
+    (fun t f sv hf => GoatProofs.Lemmas.C10Paths.typeFields_walk_no_panic t f sv true true hf) fuel t cur w
+
+theorem no_panic_custom_decode_fresh (fuel : Nat) (t : Ty) (w : Wire) : NoPanic (decode fuel t w) := by
+  unfold decode; exact no_panic_custom_decode fuel t _ w
 
 /-- without any hypothesis: destinations that are neither structs nor time never reach the two
     hypotheses — e.g. any JSON value into `any`, `string`, `[]byte`, `map[string]any` -/
